@@ -44,6 +44,7 @@ import LLFreeV.Proofs.EndToEnd
 import LLFreeV.Proofs.CfgOk
 import LLFreeV.Proofs.ConcUpperThreads
 import LLFreeV.Proofs.GenToggle
+import LLFreeV.Proofs.ConcChange
 namespace LLFree.C02
 open LLFree
 
@@ -178,5 +179,18 @@ theorem single_row_updates_match_source (bits sh : Nat) (hb : bits ≤ 64) (hs :
     Gen.B.isZeroRow e mask = decide ((e &&& mask) = 0) :=
   ⟨GenTree.toggleMask_eq bits sh hb hs, GenTree.toggleSmall_eq e mask expected, GenTree.isZeroMask_eq bits sh hb hs,
     GenTree.isZeroRow_eq e mask⟩
+
+/-- … and the same when the concurrent phase also changed trees (class changes, `Offline`): any
+    sequential history after a quiescent end keeps the invariant (so the ownership refinement of every
+    later call applies). -/
+theorem conc_with_tree_changes_then_history_keeps_invariant (c : Cfg) (ok : CfgOk c) (H : Nat → Nat) (m : Mem) (inv : UpperInv0 c H m)
+    (n : Nat) (cmds : Nat → List CCmd) (hvalidU : ∀ k, ∀ x ∈ cmds k, x.valid c) (sched : List Nat) (hsched : ∀ k ∈ sched, k < n)
+    (hdone : ∀ k, k < n → ∃ held, ((concRun sched (m, fun k => Th.at (runUC c (cmds k) ⟨[], []⟩))).2 k).step
+      (concRun sched (m, fun k => Th.at (runUC c (cmds k) ⟨[], []⟩))).1 = .done held)
+    (calls : List Call) (hvalid : ∀ x ∈ calls, x.valid c) :
+    Runs (concRun sched (m, fun k => Th.at (runUC c (cmds k) ⟨[], []⟩))).1 (runCalls c calls)
+      (fun _ m' => ∃ H', UpperInv0 c H' m') := by
+  obtain ⟨H', _, hinv⟩ := upper_conc_quiescent_change ok H m inv n cmds hvalidU sched hsched hdone
+  exact calls_safe ok calls hvalid H' _ hinv
 
 end LLFree.C02
